@@ -175,6 +175,46 @@ for _n in (2, 3):
     _tasks(_n)
 
 
+@task("switch.edit.heterogeneous_retdiff_tags", props=["C05", "C08", "C13"], functions=FUNCS)
+def t_edit_tags(E):
+    """an Update that changes the return value of ONE branch only (the ordinary case for branches with different addresses):
+    the branches' retdiffs carry different change tags.  Switch.edit must still apply the update to the executed branch, and the
+    tags it returns must be sound (NoChange only if the selected return value is unchanged)."""
+    z3, T = E.z3, E.I.T
+    sw, gs, idx0, bargs0 = setup(E, 2)
+    k, c = key(E), chm(E)
+    old, subs = _an_old_trace(E, sw, gs, idx0, bargs0, 2)
+    # branch 0's edit reports UnknownChange, branch 1's reports NoChange (legal outputs of a callee's edit)
+    real_edit = E.I.abstract_methods[("GenerativeFunction", "edit")]
+    rv = [E.real("new_ret0"), E.real("new_ret1")]
+
+    def edit(I, g, key_, trace, request, argdiffs):
+        new, w, rd, bwd = real_edit(I, g, key_, trace, request, argdiffs)
+        j = 0 if g.t.eq(gs[0].t) else 1
+        tag = UnknownChange(E) if j == 0 else NoChange(E)
+        E.assume(T.tr_retval(new.t) == I.to_u(rv[j]))
+        if j == 1:
+            E.assume(T.tr_retval(new.t) == T.tr_retval(E.I.to_u(trace)))
+        return new, w, diff(E, rv[j], tag), bwd
+    E.I.abstract_methods[("GenerativeFunction", "edit")] = edit
+    ads = tuple(E.opaque(f"argdiffs{j}", "tuple") for j in range(2))
+    for a in ads:
+        E.assume(T.d_is_tree(a.t))
+    argdiffs = (diff(E, idx0, NoChange(E)),) + ads
+    st, val = E.attempt(lambda: E.method(sw, "edit", k, old, update(E, c), argdiffs))
+    E.require("C05.Switch.edit.branches_with_different_retdiff_tags.does_not_raise", st == "ok", also=["C13"], raised=str(val))
+    new, w, rd, bwd = val
+    inr, clamp = regions(E, idx0, 2)
+    for j in range(2):
+        E.prove(f"C13.Switch.edit.branches_with_different_retdiff_tags.retval_is_the_executed_branch[{j}of2]",
+                E.Implies(clamp == j, E.eq(E.method(new, "get_retval"), rv[j])))
+    E.prove("C08.Switch.edit.branches_with_different_retdiff_tags.retdiff_primal_is_new_retval",
+            E.eq(E.call(INC + ":Diff.tree_primal", rd), E.method(new, "get_retval")))
+    E.prove("C08.Switch.edit.branches_with_different_retdiff_tags.nochange_sound",
+            E.Implies(T.all_nochange(rd), E.eq(E.method(new, "get_retval"), E.method(old, "get_retval"))))
+    E.refutable("switch.edit.heterogeneous_retdiff_tags", E.eq(E.method(new, "get_retval"), rv[0]))
+
+
 OE = COMB + ".or_else"
 
 
